@@ -86,7 +86,7 @@ def make_scratch(repo, verif, scratch):
     # third-party container models for the sync cache
     patches = []
     lock = open(os.path.join(src, "Cargo.lock")).read() if os.path.exists(os.path.join(src, "Cargo.lock")) else ""
-    for crate in ("dashmap", "crossbeam-channel", "smallvec"):
+    for crate in ("dashmap", "crossbeam-channel", "smallvec", "tagptr"):
         d = os.path.join(mdir, crate)
         if os.path.isdir(d):
             # the model must carry exactly the locked version, or cargo ignores the patch
